@@ -77,6 +77,18 @@ pub fn execute(sb: &Sandbox, files: &Files, layout: &Layout, topo: Option<&[Stri
     let (sum, _c, shell) = ops::run_main(sb, &spec, true);
     observe_run(&sum, &mut obs);
     let mut procs = 1u64;
+    // the same injected I/O fault must be reported the same way whatever the hash seed and the
+    // directory order are (files are opened in sorted order, so the n-th open is the same file)
+    let nth = (cfg_fault_position(files) % 4) as u32;
+    let fspec = ProcSpec {
+        entropy: cfg.entropy,
+        readdir: cfg.readdir,
+        plan: vec![crate::shim::FaultRule { call: crate::shim::Call::Open, nth, action: crate::shim::Action::Errno(libc::EIO) }],
+        ..Default::default()
+    };
+    let (fsum, _c2, _s2) = ops::run_main(sb, &fspec, false);
+    obs.insert("fault:verdict".into(), format!("{}:{}:{}:{}", fsum.class, fsum.kind, fsum.diagnostics.join("|"), fsum.message));
+    procs += 1;
     // observed directory orders (for the evidence measure)
     let mut dir_orders = Vec::new();
     let mut cur = String::new();
@@ -102,6 +114,11 @@ pub fn execute(sb: &Sandbox, files: &Files, layout: &Layout, topo: Option<&[Stri
         }
     }
     (obs, procs, dir_orders)
+}
+
+/// Which open() fails in the faulty run of a project: a function of the project only.
+fn cfg_fault_position(files: &Files) -> u64 {
+    files.keys().map(|k| k.len() as u64).sum::<u64>() + files.len() as u64
 }
 
 fn field_class(field: &str) -> String {
